@@ -224,6 +224,9 @@ func (c *XAConn) createNewTxOnExecIfNeed(ctx context.Context, f func() (types.Ex
 		if err != nil {
 			return nil, err
 		}
+		// the branch opened for this one statement ends with it: the next
+		// statement on this connection opens its own
+		defer func() { c.autoCommit = currentAutoCommit }()
 	}
 
 	// execute SQL
